@@ -123,7 +123,9 @@ class LetFiller(Visitor):
         if reg.fundamental:
             if isinstance(reg.size, Constant):
                 size = self.resolve_constant(reg.size)
-                if size <= 0:
+                if isinstance(size, float) and size.is_integer():
+                    size = int(size)
+                if not isinstance(size, int) or size <= 0:
                     # Same rule as the parser applies to a literal size
                     raise JaqalError(
                         f"Defining register {reg.name}: Invalid register size {size}"
